@@ -2,8 +2,10 @@ import MindsVerif.Model.ModelJoin
 /-! Line protocol driver for the table–model join planner model (C14).
 
 input (space separated tokens; strings are `~` + percent-encoded text):
-  line    ::= nops operand* where using
-  operand ::= (tab|mod|sub) nparts part* alias jtype on target ninner integ
+  line    ::= nops operand* where using info
+  info    ::= ntargets expr* isStar distinct groupBy having limit offset order nothers expr*   (flags 0|1; limit/offset - | str)
+  order   ::= - | R n (expr dir)*
+  operand ::= (tab|mod|sub) nparts part* alias jtype on target ninner integ tkey
   alias   ::= - | A n part*
   on,where::= - | expr
   target  ::= - | str
@@ -99,8 +101,9 @@ def rdOperand : List String → Option (Operand × List String)
       | t :: ts => t.toNat?.map fun n => (n, ts)
       | [] => none)
     let (ig, ts) ← rdStr ts
+    let (tk, ts) ← rdStr ts
     pure ({ kind := kind, parts := parts, alias := alias, jtype := jt, on := on, target := tg, inner := ni,
-            integ := ig }, ts)
+            integ := ig, tkey := tk }, ts)
   | _ => none
 
 def rdPair (ts : List String) : Option ((String × String) × List String) := do
@@ -116,13 +119,55 @@ def rdUsing : List String → Option (Option (List (String × String)) × List S
     pure (some ps, ts)
   | _ => none
 
+def rdFlag : List String → Option (Bool × List String)
+  | "1" :: ts => some (true, ts)
+  | "0" :: ts => some (false, ts)
+  | _ => none
+
+def rdOptStr : List String → Option (Option String × List String)
+  | "-" :: ts => some (none, ts)
+  | t :: ts => some (some (dec t), ts)
+  | [] => none
+
+def rdOrd (ts : List String) : Option ((E × String) × List String) := do
+  let (e, ts) ← rdE ts
+  let (d, ts) ← rdStr ts
+  pure ((e, d), ts)
+
+def rdInfo : List String → Option (QInfo × List E × List String)
+  | n :: ts => do
+    let n ← n.toNat?
+    let (tg, ts) ← takeN rdE n ts
+    let (st, ts) ← rdFlag ts
+    let (di, ts) ← rdFlag ts
+    let (gb, ts) ← rdFlag ts
+    let (hv, ts) ← rdFlag ts
+    let (li, ts) ← rdOptStr ts
+    let (off, ts) ← rdOptStr ts
+    let (ob, ts) ← (match ts with
+      | "-" :: ts => some (none, ts)
+      | "R" :: m :: ts => do
+        let m ← m.toNat?
+        let (l, ts) ← takeN rdOrd m ts
+        pure (some l, ts)
+      | _ => none)
+    match ts with
+    | m :: ts => do
+      let m ← m.toNat?
+      let (others, ts) ← takeN rdE m ts
+      pure ({ targets := tg, isStar := st, distinct := di, groupBy := gb, having := hv, limit := li, offset := off,
+              orderBy := ob }, others, ts)
+    | [] => none
+  | [] => none
+
 def rdQuery : List String → Option Query
   | n :: ts => do
     let n ← n.toNat?
     let (ops, ts) ← takeN rdOperand n ts
     let (w, ts) ← rdOptE ts
     let (u, ts) ← rdUsing ts
-    if ts.isEmpty then pure { ops := ops, wh := w, using? := u } else none
+    let (info, others, ts) ← rdInfo ts
+    if ts.isEmpty then pure { ops := ops, wh := w, using? := u, info := info, others := others } else none
   | [] => none
 
 def argList : E → List E
@@ -152,7 +197,12 @@ def showDict (f : α → String) : Option (List (String × α)) → String
 
 partial def showStep : Step → String
   | .nested k => s!"nested({k})"
-  | .fetch t w => s!"fetch(t={t};w={showOptE w})"
+  | .fetch t w l =>
+    let so : Option String → String := fun | none => "-" | some v => enc v
+    let ord := match l.order with
+      | none => "-"
+      | some os => "[" ++ ",".intercalate (os.map fun (c, d) => enc c ++ ":" ++ enc d) ++ "]"
+    s!"fetch(t={t};w={showOptE w};limit={so l.limit};offset={so l.offset};order={ord})"
   | .inner t => s!"inner(t={t})"
   | .subsel t i w => s!"sub(t={t};in={i.show};w={showOptE w})"
   | .distinct i c => s!"dist(in={i.show};col={enc c})"
@@ -160,7 +210,9 @@ partial def showStep : Step → String
     s!"apply(t={t};in={i.show};row={showDict enc row};params={showDict enc ps};map={showDict showE cm})"
   | .join l r jt on => s!"join(l={l.show};r={r.show};type={enc jt};on={showOptE on})"
   | .mr v sz subs => s!"mr(values={v.show};part={enc sz};[" ++ " ; ".intercalate (subs.map showStep) ++ "])"
-  | .query i w => s!"query(in={i.show};w={showE w})"
+  | .query i w li off =>
+    let so : Option String → String := fun | none => "-" | some v => enc v
+    s!"query(in={i.show};w={showOptE w};limit={so li};offset={so off})"
 
 def handle (line : String) : String :=
   match rdQuery ((line.trimAscii.toString.splitOn " ").filter (· ≠ "")) with
